@@ -145,6 +145,12 @@ func (r *remoteReplicator) IsReady() bool {
 		if r.isSuspend.CompareAndSwap(false, true) {
 			r.statistics.FollowerOffline.Incr()
 			r.state.Store(&state{state: models.ReplicatorFailureState, errMsg: "follower node is offline"})
+			// NOTE: need check follower again after marking suspend, node online event is only notified to the suspended
+			// replicator, if it is handled after above checking and before marking suspend, nobody wakes up this replicator.
+			if _, online := r.stateMgr.GetLiveNode(follower); online && r.isSuspend.CompareAndSwap(true, false) {
+				// follower is online and event handler doesn't(won't) notify, needn't wait
+				return r.IsReady()
+			}
 			<-r.suspend // wait follower node online
 		}
 		return r.IsReady() // check replicator is ready now
